@@ -79,6 +79,21 @@ def chk_identities(inp):
             scr._scrn = s0
             if not numpy.allclose(r2 - r1, 7.5, atol=1e-7):
                 return bad("Fried variant: adding a constant to the screen does not add exactly that constant to the new row", float(abs(r2 - r1 - 7.5).max()), 0.0)
+        # the row add_row() actually produces: computed from the screen as it is BEFORE the shift, placed at index 0
+        s0 = numpy.random.default_rng(8).normal(size=scr._scrn.shape)
+        g = numpy.random.default_rng(9).normal(size=scr.nx_size)
+        keepR = scr._R
+        scr._scrn = s0.copy(); scr._R = FakeGen(g)
+        direct = scr.get_new_row().ravel()
+        scr._scrn = s0.copy(); scr._R = FakeGen(g)
+        scr.add_row()
+        after = numpy.array(scr._scrn, dtype=float)
+        scr._R = keepR
+        if after.shape != s0.shape or not numpy.allclose(after[0], direct, rtol=1e-12, atol=1e-12):
+            return bad("%s(%d): the row add_row() puts at index 0 is not the conditional draw A Z + B b computed from the screen before the shift" % (cls.__name__, n),
+                       float(abs(after[0] - direct).max()) if after.shape == s0.shape else list(after.shape), 0.0)
+        if not numpy.array_equal(after[1:], s0[:-1]):
+            return bad("%s(%d): add_row() does not move the previous rows down by exactly one" % (cls.__name__, n))
         if not all(0 <= r < scr._scrn.shape[0] and 0 <= c < scr._scrn.shape[1] for r, c in scr.stencil_coords):
             return bad("a stencil coordinate lies outside the internal screen")
 
